@@ -987,6 +987,28 @@ impl Discovery {
       self.handle_topic_reader(Some(guid_prefix));
       self.handle_subscription_reader(Some(guid_prefix));
       self.handle_publication_reader(Some(guid_prefix));
+      // If the participant had timed out, DiscoveryDB has just restored the
+      // readers and writers we knew it had. The SEDP samples that told us about
+      // them were consumed long ago and are not going to arrive again (a resent
+      // copy is a duplicate to the SEDP reader), so the local endpoints, which
+      // dropped them when the participant was lost, must be told here.
+      let (known_readers, known_writers) = {
+        let db = discovery_db_read(&self.discovery_db);
+        (
+          db.readers_of_participant(guid_prefix),
+          db.writers_of_participant(guid_prefix),
+        )
+      };
+      for discovered_reader_data in known_readers {
+        self.send_discovery_notification(DiscoveryNotificationType::ReaderUpdated {
+          discovered_reader_data,
+        });
+      }
+      for discovered_writer_data in known_writers {
+        self.send_discovery_notification(DiscoveryNotificationType::WriterUpdated {
+          discovered_writer_data,
+        });
+      }
       debug!("Participant rediscovery finished");
     }
   }
